@@ -225,6 +225,18 @@ def r4_ring_teardown(r, facts):
     r.require(f.dominates(first_enter[0], rl), 'Completions::drop/order', 'pending submissions are not flushed (enter) before cancelling', f.where(rl))
     after_cancel_poll = [l for l, t in polls if f.dominates(rl, l)]
     r.require(bool(after_cancel_poll), 'Completions::drop/no-reclaim', 'no Completions::poll after the cancel: states of cancelled operations are never reclaimed', f.where(rl))
+    # Completions::poll does not enter the kernel when completions are already queued, and with
+    # IORING_SETUP_DEFER_TASKRUN the results of the cancelled operations are only posted by an enter with
+    # IORING_ENTER_GETEVENTS: such an enter must sit between the cancel and the final poll
+    ge = facts.const('io_uring::libc::IORING_ENTER_GETEVENTS')
+    gets = []
+    for l, t in enters:
+        fl = eb.operand(t['args'][2])
+        if any(x[0] == 'const' and x[1] is not None and x[1] & ge for x in subexprs(fl)):
+            gets.append(l)
+    okg = any(f.dominates(rl, l) and any(f.dominates(l, pl) for pl in after_cancel_poll) for l in gets)
+    r.inst('enter(GETEVENTS) between cancel and final poll: %s' % okg, f.where(gets[0]) if gets else f.where())
+    r.require(okg, 'Completions::drop/no-getevents', 'no enter with IORING_ENTER_GETEVENTS between the sync cancel and the final poll: poll skips the system call when the completion queue is not empty, so with deferred task running the cancelled operations\' completions are never fetched and their state is never reclaimed', f.where(rl))
     # every step is reached on every path: from entry, cannot return without passing each
     for what, locs in (('flush (enter)', [first_enter[0]]), ('sync cancel', [rl]), ('final poll', after_cancel_poll)):
         hit = f.forward_paths_hit([Loc(0, 0)], rets, blockers=locs)
